@@ -143,10 +143,14 @@ where
         mut y: Self::State,
         id: &ID,
     ) -> Result<(Self::State, Option<OneTimeKeyBundle>), Self::Error> {
-        let bundle = y
-            .onetime_bundles
-            .get_mut(id)
-            .and_then(|bundles| bundles.pop());
+        // One-time bundles can expire (or not be valid yet) while they wait in the registry, hand
+        // out the most recently added one which is valid right now.
+        let bundle = y.onetime_bundles.get_mut(id).and_then(|bundles| {
+            let index = bundles
+                .iter()
+                .rposition(|bundle| bundle.lifetime().verify().is_ok())?;
+            Some(bundles.remove(index))
+        });
         Ok((y, bundle))
     }
 }
